@@ -582,8 +582,8 @@ func declaredComment(fd protoreflect.Descriptor) string {
 }
 
 func foutTerm(fd protoreflect.FieldDescriptor) string {
-	return fmt.Sprintf("(FO %s %d %s %s %s %s %s %s %s %s %s)",
-		vh.BytesTerm(fd.JSONName()), fd.Number(), kindTerm(fd),
+	return fmt.Sprintf("(FO %s %s %d %s %s %s %s %s %s %s %s %s)",
+		vh.BytesTerm(fd.JSONName()), vh.BytesTerm(string(fd.Name())), fd.Number(), kindTerm(fd),
 		vh.BoolTerm(fd.IsList() || fd.IsMap()), vh.BoolTerm(fd.HasOptionalKeyword()), vh.BoolTerm(fd.HasPresence()),
 		constraintTerm(fd), extTerm(fd), listTerm(fd), keyTerm(fd), vh.BytesTerm(declaredComment(fd)))
 }
